@@ -54,6 +54,12 @@ def run(ck):
     impl, model = composer.run_both(ck, "\n".join(lines) + "\n", "c11")
     ck.sample({"program": progs["tr8_0"]}); ck.sample({"program": progs["de256_0"]})
     bad = composer.compare_programs(ck, progs, impl, model, "C11")
+    # several gadget kinds on a shared pool of witnesses in one composer (caches keyed by witness, memoised bindings ...)
+    mbad, mprogs = composer.check_mixed_sequences(ck, composer.mixed_sequences(rng, 6 if quick else 60, "trunc"), "c11_mix", "C11")
+    if mbad and not ck.violations:
+        nm_, d_ = mbad[0]
+        ck.violation(f"correspondence C11 (L3) broke on mixed sequences of gadget calls: {nm_}: {d_}",
+                     {"failing_input_found": False, "correspondence": "L3 snapshot of a sequence of gadget calls on shared witnesses vs the Gallina model", "program": mprogs[nm_], "diff": d_, "theorems_no_longer_tied": THEOREMS})
     # ---- exactness on the REAL layouts (evaluated by the extracted evaluator)
     jobs, expect, info = [], {}, {}
     for name, (kind, N, v) in meta.items():
